@@ -135,6 +135,8 @@ def build_inputs(ctx, res):
             cases.append(("thin", g3.thin(s, rng, rng.choice([0.0, 0.1, 0.3]), rng.choice([0.05, 0.15, 0.4])), None))
             cases.append(("shuffle-atoms", g3.shuffle_atoms(s, rng), None))
             cases.append(("shuffle-residues", g3.shuffle_residues(g3.window(s, rng, 40), rng), None))
+            # consecutive (stacked) residues that share chain and number and differ only in the insertion code
+            cases.append(("icode-siblings", g3.icode_siblings(g3.window(s, rng, 30), rng), None))
         w = g3.window(s, rng, 30)
         mm = multi_model(w, rng)
         for m in (None, 1, 2, 3):
